@@ -25,6 +25,9 @@ pub struct Ev {
 pub struct LStep {
     pub ev: Ev,
     pub res: String,
+    /// the other outcome the statement allows for this step (equal to `res` almost always)
+    #[serde(default)]
+    pub alt: Option<String>,
     pub dropped: Vec<u32>,
     pub new: usize,
 }
@@ -490,7 +493,8 @@ impl LifeRunner {
             let znow = ZDROPS.load(std::sync::atomic::Ordering::SeqCst);
             let zdelta = znow - zseen;
             zseen = znow;
-            if zdelta != zexp && res == st.res && now == exp {
+            let res_ok = res == st.res || st.alt.as_deref() == Some(res.as_str());
+            if zdelta != zexp && res_ok && now == exp {
                 ok = false;
                 self.divergences += 1;
                 if self.divs.len() < 20 {
@@ -499,11 +503,11 @@ impl LifeRunner {
                 }
                 break;
             }
-            if res != st.res || now != exp || !twice.is_empty() {
+            if !res_ok || now != exp || !twice.is_empty() {
                 ok = false;
                 self.divergences += 1;
                 if self.divs.len() < 20 {
-                    self.divs.push(json!({"what": if res != st.res { "lifecycle outcome" } else if !twice.is_empty() { "value dropped twice" } else { "values destroyed by this operation" },
+                    self.divs.push(json!({"what": if !res_ok { "lifecycle outcome" } else if !twice.is_empty() { "value dropped twice" } else { "values destroyed by this operation" },
                         "step": si + 1, "expected": {"res": st.res, "dropped": exp}, "observed": {"res": res, "dropped": now, "twice": twice},
                         "beh": beh, "in_scope": true}));
                 }
